@@ -69,6 +69,13 @@ func (e *Engine) checkSubscriptions(sh *Shadow) *Violation {
 			return e.sv(sh, nil, "%s (S=%06b C=%v) received %d events, the documented rule selects %d of the full stream; got %s expected %s",
 				name, sub.S, sub.C, len(got), len(exp), fmtEvs(gl), fmtEvs(exp))
 		}
+		for i := range got {
+			if got[i].Types&evRemoved != 0 && !got[i].Locked {
+				v := e.sv(sh, nil, "%s (S=%06b C=%v): removal event %s delivered with the world unlocked", name, sub.S, sub.C, fmtEv(&got[i].MEv))
+				v.Class = "lock-not-enforced"
+				return v
+			}
+		}
 		for i := range exp {
 			if !evEqual(&exp[i], &got[i].MEv) || got[i].AddedIDs != got[i].Added || got[i].RemovedIDs != got[i].Removed {
 				return e.sv(sh, nil, "%s (S=%06b C=%v): event %d is %s, the full stream has %s there", name, sub.S, sub.C, i, fmtEv(&got[i].MEv), fmtEv(&exp[i]))
